@@ -53,6 +53,10 @@ check("C09", "fault_enumeration",
       BASE_NOTE + " Failure positions are complete per program; programs are sampled. stderr content is not modelled.",
       "deterministic simulation with enumerated fault injection (every fd-allocation failure position per program) + reference redirection-table model", "DESIGN.md section 4 C09")
 
+check("C08", "exploration",
+      "Generated programs place 34 kinds of state-mutating commands before and inside every kind of subshell (( ), $( ), both pipeline elements, asynchronous lists, nested to depth 3); a probe serialises the complete shell state (variables+attributes, positional parameters, functions, aliases, options, traps, cwd, umask, limits, descriptor table by open-file-description identity, signal dispositions, mask) around each one. Oracles: the parent's snapshot is unchanged by whatever the child does - also while an asynchronous child is still running, under seeded schedules with preemption between any two kernel calls of the parent; the child's entry snapshot equals the parent's except exactly the documented differences; data written to shared files/pipes arrives (positive control). A virtual fork is an in-memory clone sharing reference-counted parts, so leaks are schedule dependent - which only a controlled scheduler explores.",
+      BASE_NOTE, "deterministic simulation: full-state snapshots around subshells under seeded schedules with preemption", "DESIGN.md section 4 C08")
+
 import os
 selected = os.environ.get("MANIFEST_ONLY")
 manifest = {
